@@ -17,11 +17,21 @@ package quic
 //@   props C14
 //@   requires d.t != nil && d.t.txBytesCounter != nil
 //@   assert call SendTo: arg1 == d.t.sequenceNumber && d.t.sequenceNumber == (old(d.t.sequenceNumber) + 1) % 4294967296
+// a sequence number once drawn is never handed back, also when the send fails half way (the receiver
+// may already hold segments under it: reusing it would mix two messages)
+//@   ghostvar drew bool = false
+//@   after call AddUint32: drew = true
+//@   ensures d.t.sequenceNumber == ite(drew, (old(d.t.sequenceNumber) + 1) % 4294967296, old(d.t.sequenceNumber))
 
 //@ func (*Transport).WriteUnreliable
 //@   props C14
 //@   requires t.txBytesCounter != nil
 //@   assert call SendTo: arg1 == t.sequenceNumber && t.sequenceNumber == (old(t.sequenceNumber) + 1) % 4294967296
+// a sequence number once drawn is never handed back, also when the send fails half way (the receiver
+// may already hold segments under it: reusing it would mix two messages)
+//@   ghostvar drew bool = false
+//@   after call AddUint32: drew = true
+//@   ensures t.sequenceNumber == ite(drew, (old(t.sequenceNumber) + 1) % 4294967296, old(t.sequenceNumber))
 
 // ---------------------------------------------------------------- C13: stream framing
 // Assumed contract of the standard io.Writer (its documentation: "Write must not modify the
@@ -119,7 +129,10 @@ package quic
 //@   assert call utf8.Valid$: arg0 == lastBuf   // what is validated is the key / the value that was just read
 //@   after call utf8.Valid$: nvalid = ite(res0, nvalid + 1, nvalid)
 //@   ensures imp(result1 == nil, nvalid * 2 == reads - 1)
-//@   loop 1 invariant reads % 4 == 0 && nvalid * 2 == reads
+// ... and every entry it accepted is a parameter of its own: the map has as many entries as were
+// read (a key that is already in - whatever its value, also the empty one - is an error, never overwritten)
+//@   ensures imp(result1 == nil, result0 != nil && len(result0) * 4 == reads - 1)
+//@   loop 1 invariant reads % 4 == 0 && nvalid * 2 == reads && keyvals != nil && len(keyvals) * 4 == reads
 
 // ---------------------------------------------------------------- C13 / C14 / C17: construction
 // The transport compresses exactly as the negotiated parameters say (CompressConfig, proved under
@@ -142,3 +155,9 @@ package quic
 //@   ghostvar got []byte = nil
 //@   after call io.ReadAll: got = res0
 //@   ensures imp(result1 == nil, result0 == got)
+
+// The compressed frame is assembled in a buffer allocated by this very call: nobody else can write
+// into the bytes that are handed to the stream while they are in flight (no pooled or shared buffer).
+//@ func encodeWithCompression
+//@   props C13
+//@   assert call NewWriter: typeis(arg0, *bytes.Buffer) && fresh(unbox(arg0, *bytes.Buffer))
